@@ -82,7 +82,7 @@ def rem(a, b, /):
     """
 
     if isinstance(a, int) and isinstance(b, int):
-        return a - b * int(a / b)
+        return a - b * (a // b if (a < 0) == (b < 0) else -(-a // b))
     else:
         if hasattr(a, "_cohdl_rem_"):
             rem_result = a._cohdl_rem_(b)
@@ -112,7 +112,8 @@ def truncdiv(a, b, /):
 
     if isinstance(a, int) and isinstance(b, int):
         # explicitly handle integer division
-        return int(a / b)
+        # (exact, int(a / b) would round operands wider than a float mantissa)
+        return a // b if (a < 0) == (b < 0) else -(-a // b)
     else:
         if hasattr(a, "_cohdl_truncdiv_"):
             rem_result = a._cohdl_truncdiv_(b)
